@@ -2,6 +2,7 @@
 size, Add/Write history), running them through the real generated writer and
 reader and through the extracted model, and the independent validator."""
 import os
+import random
 import re
 
 from . import common as C
@@ -223,7 +224,10 @@ def run_structured_workloads(rng, shapes, tier):
             ws.append(Workload(sh, rng.randrange(3), 1000, [alt[i % 2] for i in range(n + 1)] + [full] * 9 + ["W"], "alternating"))
         if sh.name in ("boolopt", "p_boolopt"):
             # a run of >= 8192 equal levels: run header of three ULEB128 bytes
-            ws.append(Workload(sh, rng.randrange(3), 10000, [full] * 8200 + [empty, "W"], "run-of-8200"))
+            # (short values from a fixed generator: the cost of this workload must not depend on the seed)
+            r2 = random.Random(8200)
+            full2 = S.gen_value(r2, sh.model_fields(), maxlist=2, pnull=0.0, extreme=0.0)
+            ws.append(Workload(sh, rng.randrange(3), 10000, [full2] * 8200 + [empty, "W"], "run-of-8200"))
     return ws
 
 
